@@ -928,6 +928,7 @@ type filterLoop struct {
 	Stmt   ast.Stmt
 	Body   *ast.BlockStmt
 	ElemIs func(e ast.Expr) bool
+	IdxIs  func(e ast.Expr) bool // e is the position (byte index for strings) of the current element
 }
 
 func (c *Ctx) asFilterLoop(s ast.Stmt, isSource func(ast.Expr) bool) *filterLoop {
@@ -944,7 +945,7 @@ func (c *Ctx) asFilterLoop(s ast.Stmt, isSource func(ast.Expr) bool) *filterLoop
 			kobj = c.objOf(id)
 		}
 		src := s.X
-		return &filterLoop{Stmt: s, Body: s.Body, ElemIs: func(e ast.Expr) bool {
+		return &filterLoop{Stmt: s, Body: s.Body, IdxIs: func(e ast.Expr) bool { return kobj != nil && c.isObj(e, kobj) }, ElemIs: func(e ast.Expr) bool {
 			e = stripParens(e)
 			if vobj != nil && c.isObj(e, vobj) {
 				return true
@@ -980,7 +981,7 @@ func (c *Ctx) asFilterLoop(s ast.Stmt, isSource func(ast.Expr) bool) *filterLoop
 			return nil
 		}
 		src := call.Args[0]
-		return &filterLoop{Stmt: s, Body: s.Body, ElemIs: func(e ast.Expr) bool {
+		return &filterLoop{Stmt: s, Body: s.Body, IdxIs: func(e ast.Expr) bool { return c.isObj(e, iv) }, ElemIs: func(e ast.Expr) bool {
 			ix, ok := stripParens(e).(*ast.IndexExpr)
 			return ok && c.isObj(ix.Index, iv) && c.sameExpr(ix.X, src)
 		}}
